@@ -20,7 +20,7 @@ RULE = (
     "(quotes, backslash, newline, braces) up to length 4-5 (exhaustive). stream path: every path of <= 3 segments over "
     "word/keyword/quoted/backslash/quote/index/nested segments (exhaustive). stream parse: random token lists (mostly "
     "malformed) through the real logical-expression parser and the model parser. stream known: the witnesses of the known "
-    "findings. Non-trivial: the serialised text differs from the generated source, or the template holds a compound "
+    "findings. stream xparse (deepening): generated loop and filtered expressions plus token-level mutations through the real LoopExpression.parse / FilteredExpression.parse and the token-level models (tree or reject), and the real lexer's tokens of the accepted expression's str() against the model token printer. Non-trivial: the serialised text differs from the generated source, or the template holds a compound "
     "logical expression, a quoted/bracketed path segment, a string literal with a special character, or a block tag."
 )
 TRUSTED_BASE = [
@@ -41,7 +41,7 @@ MANIFEST = {
     "round-trip oracle through the real lexer/parser/renderer",
     "text": "parse_print_bool / parse_print_bool_exact / parse_print_bool_all / print_idempotent hold for every logical "
     "expression of any size over and/or/not/comparisons/contains/groups; unquote_quote for every string value without "
-    "both quote kinds; path_print_parse for every path incl. bracketed roots, nested paths, quoted and keyword "
+    "both quote kinds; prim_print_parse (all primitives incl. nested ranges and paths, on the lexer's token kinds), loop_expr_print_parse (every option combination), lex_string_literal (from text, via the C20 lexer model); path_print_parse for every path incl. bracketed roots, nested paths, quoted and keyword "
     "segments; counter-example theorems keep the defects of the printer of the unchanged tree and of the nil/empty/blank literals (known findings) visible. Tag-level "
     "printers are modelled literally and tied by the print stream; their round trip is checked by the direct oracle.",
     "note": "Trusted: Lean kernel (axioms propext/Classical.choice/Quot.sound only), the hand models, the harness, the "
@@ -459,7 +459,7 @@ class Gen:
         return q + v + q
 
     def seg_key(self):
-        return self.r.choice(["name", "tags", "a", "b", "c", "t", "z", "and", "not", "x y", "it's", "a\\b", "0", "size", "first", "k", "empty", "with-dash", "_u"])
+        return self.r.choice(["name", "tags", "a", "b", "c", "t", "z", "and", "not", "x y", "it's", "a\\b", "0", "size", "first", "k", "empty", "with-dash", "_u", "ok?", "1st", "12", "×", "b-"])
 
     def path(self, depth=0):
         root_kind = self.r.range(0, 9)
@@ -1069,6 +1069,120 @@ class PathTokStream(PathStream):
         return ["valid" if obs.get("valid") else "not-a-single-path"]
 
 
+def real_tokens(text):
+    """[[kind, value]…] from the real expression lexer (None when it raises)"""
+    from liquid.builtin.expressions import tokenize
+    from liquid.token import Token
+
+    try:
+        return [[t.kind, t.value] for t in tokenize(text, Token("expr", text, 0, text))]
+    except Exception:
+        return None
+
+
+def canon_toks(toks):
+    """the driver's xtokJson shape: valued kinds as [kind, value], the rest by kind; integers normalised"""
+    out = []
+    for k, v in toks:
+        if k in ("word", "identstring", "string", "float"):
+            out.append([k, v])
+        elif k in ("integer", "identindex"):
+            out.append([k, str(int(v))])
+        elif k in ("eq", "ne", "lt", "gt", "le", "ge"):
+            out.append({"eq": "==", "ne": "!=", "lt": "<", "gt": ">", "le": "<=", "ge": ">="}[k])
+        else:
+            out.append(k)
+    return out
+
+
+class XParseStream(Stream):
+    """Deepening: the token-level models of LoopExpression.parse and FilteredExpression.parse (with parse_primitive,
+    Path.parse, Filter.parse) against the real parsers on the real lexer's tokens — generated expressions plus
+    token-level mutations (drop / duplicate / swap a token), mostly malformed — and, when the expression parses, the
+    real lexer's tokens of its str() against the model's token printer (tokLoop / tokFExpr)."""
+
+    name = "xparse"
+
+    def cases(self, ctx):
+        self.parallel = ctx.tier == "thorough"
+        rng = ctx.rng_for("xparse")
+        out = []
+        for _ in range(ctx.scale(1500, 15000)):
+            g = Gen(rng)
+            g.in_loop = 0
+            if rng.chance(50):
+                kind, src = "loop", g.loop_expr(table=rng.chance(50))
+            else:
+                kind, src = "filt", g.prim() + g.filters()
+            toks = real_tokens(src)
+            if toks is None:
+                continue
+            m = rng.range(0, 5)
+            if toks and m == 0:
+                i = rng.below(len(toks)); toks = toks[:i] + toks[i + 1 :]
+            elif toks and m == 1:
+                i = rng.below(len(toks)); toks = toks[: i + 1] + toks[i:]
+            elif len(toks) > 1 and m == 2:
+                i = rng.below(len(toks) - 1); toks = toks[:i] + [toks[i + 1], toks[i]] + toks[i + 2 :]
+            out.append({"kind": kind, "toks": toks, "mutated": m <= 2})
+        return out
+
+    def impl(self, case):
+        from liquid.builtin.expressions import FilteredExpression, LoopExpression
+        from liquid.exceptions import LiquidSyntaxError
+        from liquid.stream import TokenStream
+        from liquid.token import Token
+
+        stream = TokenStream(iter([Token(k, v, 0, "") for k, v in case["toks"]]))
+        try:
+            if case["kind"] == "loop":
+                e = LoopExpression.parse(env(), stream)
+                tree = loop_json(e)
+            else:
+                e = FilteredExpression.parse(env(), stream)
+                tree = expr_json(e)
+        except LiquidSyntaxError:
+            return {"tree": None}
+        except Exception as ex:
+            return {"tree": None, "non_liquid_error": type(ex).__name__}
+        st = real_tokens(str(e))
+        return {"tree": tree, "str_toks": canon_toks(st) if st is not None else None, "text": str(e)}
+
+    def line(self, case):
+        if any(k == "if" for k, _ in case["toks"]):
+            return None  # ternaries: the condition parser is a parameter of the model (see notes)
+        return ["c04_xloop" if case["kind"] == "loop" else "c04_xfilt", case["toks"]]
+
+    def compare_view(self, case, obs):
+        if obs["tree"] is None:
+            return {"tree": None}
+        return {"tree": obs["tree"], "str_toks": obs["str_toks"]}
+
+    def canon_model(self, case, mobs):
+        if isinstance(mobs, dict) and "tree" in mobs:
+            if mobs["tree"] is None:
+                return {"tree": None}
+            return {"tree": mobs["tree"], "str_toks": mobs["str_toks"]}
+        return mobs
+
+    def oracle(self, case, obs):
+        # the property on the accepted ones: their text parses back to the same tree
+        if obs["tree"] is None or feature_nil(obs["tree"]) or feature_empty_literal(obs["tree"]) or feature_blank_literal(obs["tree"]):
+            return None
+        toks = real_tokens(obs["text"])
+        c2 = {"kind": case["kind"], "toks": toks or []}
+        o2 = self.impl(c2) if toks is not None else {"tree": None}
+        if o2["tree"] != obs["tree"]:
+            return (f"xparse|{case['kind']}|text-parses-differently", f"{obs['text']!r}: {obs['tree']} -> {o2['tree']}")
+        return None
+
+    def nontrivial(self, case, obs):
+        return obs["tree"] is not None
+
+    def tags(self, case, obs):
+        return [case["kind"], "accepted" if obs["tree"] is not None else "rejected", "mutated" if case["mutated"] else "as-generated"]
+
+
 TOKS = ["and", "or", "not", "(", ")", "==", "<", "contains", "<>", ["atom", 0], ["atom", 1], ["atom", 2], ["atom", 0], ["atom", 1]]
 
 
@@ -1223,4 +1337,4 @@ class RegressStream(KnownStream):
 
 
 def streams(ctx):
-    return [BoolStream(), StrLitStream(), PathStream(), PathTokStream(), ParseStream(), TmplStream(), KnownStream(), RegressStream()]
+    return [BoolStream(), StrLitStream(), PathStream(), PathTokStream(), ParseStream(), XParseStream(), TmplStream(), KnownStream(), RegressStream()]
